@@ -14,6 +14,7 @@ import (
 	"testing"
 
 	"github.com/gofrs/uuid"
+	"github.com/ory/x/networkx"
 	"github.com/sirupsen/logrus"
 
 	"github.com/ory/keto/internal/check"
@@ -129,6 +130,47 @@ type engEnv struct {
 	nfile  int
 	// last limits set (Config.Set reloads the whole configuration, ~10 ms)
 	lastDepth, lastWidth int
+	other                *ksql.Persister // a second network on the same database (C06)
+}
+
+// otherNetwork returns a persister for a second network id on the same database.
+func (e *engEnv) otherNetwork() (*ksql.Persister, error) {
+	if e.other != nil {
+		return e.other, nil
+	}
+	n := networkx.NewNetwork()
+	conn, err := e.reg.PopConnection(e.ctx)
+	if err != nil {
+		return nil, err
+	}
+	if err := conn.Create(n); err != nil {
+		return nil, err
+	}
+	p, err := ksql.NewPersister(e.ctx, e.reg, n.ID)
+	if err != nil {
+		return nil, err
+	}
+	e.other = p
+	return p, nil
+}
+
+// fillOtherNetwork replaces the content of the second network by the given tuples.
+func (e *engEnv) fillOtherNetwork(ts []Tup) error {
+	p, err := e.otherNetwork()
+	if err != nil {
+		return err
+	}
+	if err := p.DeleteAllRelationTuples(e.ctx, &relationtuple.RelationQuery{}); err != nil {
+		return err
+	}
+	if len(ts) == 0 {
+		return nil
+	}
+	its := make([]*relationtuple.RelationTuple, len(ts))
+	for i, t := range ts {
+		its[i] = t.internal()
+	}
+	return p.WriteRelationTuples(e.ctx, its...)
 }
 
 func newEngEnv(t testing.TB) *engEnv {
